@@ -92,7 +92,8 @@ func c06Exec(c c06Case, limit int64) (c06Obs, *Verdict) {
 	w.Send(cv.buf)
 	rest, fin := w.Finish()
 	if !fin {
-		return c06Obs{}, &Verdict{Inconclusive: "watchdog while finishing"}
+		v := finishFail(w)
+		return c06Obs{}, &v
 	}
 	if p := r.Log.Panicked(); p != "" {
 		v := failf("panic", "server logged a panic: %s", p)
@@ -237,7 +238,7 @@ func c06SizeRun(c c06SizeCase) Verdict {
 	w.Send([]byte("MAIL FROM:<s@x> SIZE=" + c.Size + "\r\nQUIT\r\n"))
 	rest, fin := w.Finish()
 	if !fin {
-		return Verdict{Inconclusive: "watchdog while finishing"}
+		return finishFail(w)
 	}
 	rs, err := harness.ParseReplies(rest)
 	if err != nil || len(rs) != 2 {
